@@ -667,7 +667,8 @@ def run(ctx):
         "parser and walked together with the graph: operator per kind (harness table from the StableHLO/CHLO/XLA documentation), arity "
         "and operand order, comparison direction, named constants, numeric constants by value, element type of the operand a constant "
         "is attached to, every name bound/declared once and before use, every reference resolving to the identical graph node. "
-        "Non-trivial = graph with >=1 named binding that is referenced and >=1 constant; distinct by case."
+        "Non-trivial = graph with >=1 named binding that is referenced and >=1 constant; distinct by case. A coverage-guided campaign "
+        "(atheris/libFuzzer over the byte string Hypothesis decodes into a case of the same strategies, same oracle) follows; counted under fuzz/*."
     )
     ctx.assumptions = [
         "operator tables transcribed from the StableHLO / CHLO / XLA client documentation; kinds without a certain counterpart (positive, asin_acos_kernel, log2/log10 for XLA, bitwise ops) are walked structurally but their operator name is not asserted (counted)",
@@ -677,3 +678,11 @@ def run(ctx):
     n = 700 if ctx.quick else 8000
     tasks = [(ctx.seed, s, n, ctx.known, t) for t in ("stablehlo", "xla_client") for s in range(8)]
     ctx.pmap(_gen_shard, tasks)
+    from harness import fuzz
+
+    fuzz.campaign(ctx, "C06", ["stablehlo", "xla_client"], runs=800 if ctx.quick else 40000, workers=8 if ctx.quick else 16)
+
+
+# ---- coverage-guided tier (harness/fuzz.py)
+def fuzz_strategy(variant):
+    return gen_cases(variant)
